@@ -137,7 +137,10 @@ def handle : Handler := fun m j =>
   | "sym.eval" => some do
       let e ← exprOfJson (← j.getObjVal? "e")
       let envs ← getEnvs j "envs"
-      return obj [("r", Json.arr (envs.map (fun env => ratJ (eval env e))).toArray)]
+      let ints : Json := if intFrag e then
+          Json.arr (envs.map (fun env => optJ (fun (z : Int) => toJson z) (evalInt env e))).toArray
+        else Json.null
+      return obj [("r", Json.arr (envs.map (fun env => ratJ (eval env e))).toArray), ("int", ints)]
   | "sym.partial" => some do
       -- eval b2 (subst b1 e), eval (b1 ∪ b2) e, free (subst b1 e)
       let e ← exprOfJson (← j.getObjVal? "e")
